@@ -121,6 +121,35 @@ def print_assumptions(prop, thms, rundir):
             res[cur].append(m.group(1))
     return res, out
 
+def requested_tier_is_thorough(tier, only):
+    return tier == "thorough" and only is None and os.environ.get("VERIF_NO_COQCHK") != "1"
+
+def coqchk(prop):
+    """coqchk re-checks Props/<prop>.vo and everything it depends on with the independent checker; -o lists the axioms
+    of the whole context.  Accepted: the allow-list (by final identifier), nothing about type-in-type / unsafe fixpoints /
+    assumed positivity."""
+    rc, out = sh(["coqchk", "-o", "-silent", "-Q", COQ, "Tevec", "Tevec.Props.%s" % prop], timeout=3000)
+    if rc != 0:
+        return False, [], out
+    axioms, mode, clean = [], None, True
+    for line in out.split("\n"):
+        m = re.match(r"\* (Axioms|Constants/Inductives relying on type-in-type|Constants/Inductives relying on unsafe "
+                     r"\(co\)fixpoints|Inductives whose positivity is assumed):\s*(.*)", line)
+        if m:
+            mode = m.group(1)
+            if m.group(2).strip() not in ("", "<none>") and mode != "Axioms": clean = False
+            continue
+        if line.startswith("* "): mode = None; continue
+        t = line.strip()
+        if not t or mode is None: continue
+        if mode == "Axioms":
+            if t != "<none>": axioms.append(t)
+        else:
+            clean = False
+    allowed = {a.split(".")[-1] for a in ALLOWED_AXIOMS}
+    ok = clean and all(a.split(".")[-1] in allowed for a in axioms)
+    return ok, axioms, out
+
 # --------------------------------------------------------------------------- harness side
 
 def build_harness(binname, release=False):
@@ -348,6 +377,12 @@ def check(prop, tier, seed, only=None, only_bin=None):
                            "source audit for Admitted/Axiom/Parameter/unset checks" % prop,
                theorems=thms, axioms_used=sorted(axioms_seen),
                trusted_base=PROPS.TRUSTED_COMMON + cfg.get("trusted", []))
+    # thorough tier: independent re-check of the compiled proofs with coqchk, and its own list of axioms
+    if proof_ok and requested_tier_is_thorough(tier, only):
+        ok, axioms, clog = coqchk(prop)
+        cov.update(coqchk=dict(cmd="coqchk -o -silent -Q coq Tevec Tevec.Props.%s" % prop, ok=ok, axioms=axioms))
+        if not ok:
+            proof_ok = False; out += "\n[coqchk]\n" + clog[-3000:]
     if not proof_ok:
         path = write_replay(prop, "broken-proof", dict(property=prop, step="proof",
                             theorems_not_checked=[t for t in thms if t not in assum or
